@@ -4,7 +4,9 @@
  * everything they expand to - the mock member function, mock_func, the clause closures with their [=] / [&] captures,
  * mkarg<N>, the reference_wrapper tuple - is lowered from the AST and run here on symbolic values.  Capture-by-copy vs
  * by-reference is what clang's front end put into the closure types from the macro text (trusted front end). */
+#ifndef VP_TOK_CAP
 #define VP_TOK_CAP 1
+#endif
 #include "vp_models.h"
 #include "unit.h"
 #include "vp_models_impl.h"
@@ -49,5 +51,20 @@ void c_arity15(void)
   for (int i = 0; i < 15; i++) __CPROVER_assert(o.v[i] == x0 + i + 1, "[C09] POST _1.._15 denote the fifteen arguments in positional order, by reference");
   __CPROVER_assert(o.ret == x0 + 15, "[C09] POST RETURN(_15) is evaluated after the side effect and sees the written argument");
   __CPROVER_assert(0, "REACH! c_arity15");
+}
+/* C14: "after a mock object has been moved, its expectations - active and saturated - belong to the new object" */
+void c_move(void)
+{
+  SMALL(x0); struct OBS o; g_tracer_obj_ptr = 0;
+  C14_MOVE(x0, &o);
+  __CPROVER_assert(o.x == x0 + 1 && o.ret == x0 + 1, "[C14] POST moved.active_expectation_handles_calls_on_the_new_object_as_it_did_on_the_old_one");
+  __CPROVER_assert(o.y == x0 - 1, "[C14,C03] POST moved.once_it_is_saturated_the_older_expectation_moved_with_it_takes_over");
+  __CPROVER_assert(o.extra == 1 && vp_rep_n == 1 && vp_rep[0].sev == 0, "[C14,C03,C15] POST moved.a_call_beyond_the_bound_of_the_moved_saturated_expectation_is_one_fatal_report");
+  { /* the report names the saturated expectation: its text "a.g()" is streamed as a data token */
+    const struct vp_string *m = &vp_rep[0].msg; _Bool named = 0;
+    for (int k = 0; k < VP_TOK_CAP; k++) if (k < m->n && m->t[k].kind == VP_T_CSTR && m->t[k].p != 0 && ((const char *)m->t[k].p)[0] == 'a' && ((const char *)m->t[k].p)[1] == '.' && ((const char *)m->t[k].p)[2] == 'g') named = 1;
+    __CPROVER_assert(!m->overflow && named, "[C14,C03,C15] POST moved.the_report_names_the_saturated_expectation_which_moved_with_the_mock"); }
+  __CPROVER_assert(vp_exc == 0 && !vp_terminated, "[C14] POST moved.everything_is_released_quietly_at_scope_exit");
+  __CPROVER_assert(0, "REACH! c_move");
 }
 int main(void) { VP_ENTRY(); return 0; }
